@@ -222,11 +222,10 @@ def conv (env : List (String × Ty)) : H → M R
       let x ← liftE (boolArg a'); let y ← liftE (boolArg b')
       pure (.z (.imp x y))
   | .xor a b => do
-      -- z3.Or(z3.And(rec(t1), z3.Not(rec(t2))), z3.And(z3.Not(rec(t1)), rec(t2))): four calls
-      let a1 ← conv env a; let b1 ← conv env b; let a2 ← conv env a; let b2 ← conv env b
-      let x1 ← liftE (boolArg a1); let y1 ← liftE (boolArg b1)
-      let x2 ← liftE (boolArg a2); let y2 ← liftE (boolArg b2)
-      pure (.z (.or (.and x1 (.not y1)) (.and (.not x2) y2)))
+      -- z3.Or(z3.And(rec(t1), z3.Not(rec(t2))), z3.And(z3.Not(rec(t1)), rec(t2)), ctx): four calls of
+      -- rec; then, with `ctx = None` (as in `solve`), z3.Or takes None for a third disjunct and raises
+      let _ ← conv env a; let _ ← conv env b; let _ ← conv env a; let _ ← conv env b
+      failM .crash
   | .eq a b => do
       let a' ← conv env a; let b' ← conv env b
       liftE (eqR a' b')
